@@ -1562,11 +1562,39 @@ func exhaustRule(w *World, r *Report, dfi *FuncInfo) {
 		}
 		flat(fs.Cond)
 		slack, any := int64(0), false
+		slackSrc := "the loop condition " + types.ExprString(fs.Cond)
 		for _, be := range cmps {
 			if sl, ok := slackOf(be); ok {
 				any = true
 				if sl > slack {
 					slack = sl
+				}
+			}
+		}
+		// `if end-n < c { break }` at the top of the body leaves the loop like a conjunct `end-n >= c` of the
+		// condition would (the "rest is padding" exit): the bytes it can leave count as the condition's do
+		for _, st := range fs.Body.List {
+			is, ok := st.(*ast.IfStmt)
+			if !ok || is.Init != nil || is.Else != nil || len(is.Body.List) != 1 {
+				continue
+			}
+			if br, ok := is.Body.List[0].(*ast.BranchStmt); !ok || br.Tok != token.BREAK {
+				continue
+			}
+			be, ok := unparen(is.Cond).(*ast.BinaryExpr)
+			if !ok {
+				continue
+			}
+			neg := map[token.Token]token.Token{token.LSS: token.GEQ, token.LEQ: token.GTR, token.GTR: token.LEQ, token.GEQ: token.LSS}
+			op, ok := neg[be.Op]
+			if !ok {
+				continue
+			}
+			if sl, ok := slackOf(&ast.BinaryExpr{X: be.X, OpPos: be.OpPos, Op: op, Y: be.Y}); ok && sl > 0 {
+				any = true
+				if sl > slack {
+					slack = sl
+					slackSrc = "the early exit `if " + types.ExprString(is.Cond) + " { break }`"
 				}
 			}
 		}
@@ -1615,7 +1643,7 @@ func exhaustRule(w *World, r *Report, dfi *FuncInfo) {
 		}
 		pos := w.Pos(fs.Pos())
 		if slack > 0 && k <= slack {
-			r.Fail(VViolation, "exhaust", dfi.Key, inst, pos, fmt.Sprintf("the loop condition %s stops while up to %d bytes of the list remain, and an element can be as small as %d bytes: a trailing element of that size is never decoded", types.ExprString(fs.Cond), slack, k))
+			r.Fail(VViolation, "exhaust", dfi.Key, inst, pos, fmt.Sprintf("%s stops while up to %d bytes of the list remain, and an element can be as small as %d bytes: a trailing element of that size is never decoded", slackSrc, slack, k))
 		} else if slack > 0 {
 			r.OK("exhaust", dfi.Key, inst, pos, fmt.Sprintf("the condition leaves at most %d bytes, fewer than the smallest element (%d bytes)", slack, k), true)
 		} else {
